@@ -41,9 +41,10 @@ def gen_c05(rng, n, maxlen):
             a, b = G.gen_big_pair(rng, maxlen)
             if op in ("div", "rem", "divas", "remas") and G.big_value(b) == 0:
                 b = ("L", b[1], [rng.randint(1, 7)])
-            if op in ("div", "rem", "divas", "remas", "gcd") and (len(a[2]) > 8 or len(b[2]) > 8):
-                a = ("L", a[1], a[2][:8])
-                b = ("L", b[1], (b[2][:8] if G.limbs_val(b[2][:8]) else [3]))
+            lim = 3 if op == "gcd" else 6       # the extracted limb-level model is slow on long division chains
+            if op in ("div", "rem", "divas", "remas", "gcd") and (len(a[2]) > lim or len(b[2]) > lim):
+                a = ("L", a[1], a[2][:lim])
+                b = ("L", b[1], (b[2][:lim] if G.limbs_val(b[2][:lim]) else [3]))
             out.append((op, (op, a, b)))
         elif r < 0.9:
             op = rng.choice(["neg", "minus", "is_zero", "is_pos"])
@@ -113,7 +114,7 @@ def gen_c09(rng, n, maxlen):
 
 GENS = {"C05": gen_c05, "C06": gen_c06, "C07": gen_c07, "C09": gen_c09}
 SIZES = {  # (quick n, quick maxlen, thorough n, thorough maxlen)
-    "C05": (12000, 6, 120000, 24), "C06": (3000, 3, 40000, 5), "C07": (4000, 3, 50000, 5), "C09": (3000, 5, 30000, 10)}
+    "C05": (12000, 6, 80000, 16), "C06": (3000, 3, 40000, 5), "C07": (4000, 3, 50000, 5), "C09": (3000, 5, 30000, 10)}
 KNOWN_D = {"C05": "D1", "C06": "D2", "C07": "D3"}
 
 
